@@ -593,23 +593,33 @@ fn load_sheet_rels<R: Read + std::io::Seek>(
     for rel in rels {
         let t = get_attribute(&rel, "Type")?.to_string();
         if t.ends_with("comments") {
-            let mut target = get_attribute(&rel, "Target")?.to_string();
+            let target = get_attribute(&rel, "Target")?;
             // Target="../comments1.xlsx"
-            target.replace_range(..2, v[0]);
+            let target = match target.strip_prefix("..") {
+                Some(rest) => format!("{}{rest}", v[0]),
+                None => {
+                    return Err(XlsxError::Xml(format!(
+                        "Unexpected target '{target}' for the comments of a sheet"
+                    )))
+                }
+            };
             comments = load_comments(archive, &target)?;
         } else if t.ends_with("hyperlink") {
             let id = get_attribute(&rel, "Id")?.to_string();
             let target = get_attribute(&rel, "Target")?.to_string();
             hyperlinks.insert(id, target);
         } else if t.ends_with("table") {
-            let mut target = get_attribute(&rel, "Target")?.to_string();
+            let target = get_attribute(&rel, "Target")?;
 
             let path = if let Some(p) = target.strip_prefix('/') {
                 p.to_string()
-            } else {
+            } else if let Some(rest) = target.strip_prefix("..") {
                 // Target="../table1.xlsx"
-                target.replace_range(..2, v[0]);
-                target
+                format!("{}{rest}", v[0])
+            } else {
+                return Err(XlsxError::Xml(format!(
+                    "Unexpected target '{target}' for a table of a sheet"
+                )));
             };
 
             let table = load_table(archive, &path, sheet_name)?;
